@@ -9,6 +9,9 @@ C2 == {"c1", "c2"}
 K4 == {"T1.A.1", "T2.A.1", "T1.B.1", "T1.A.2"}
 K3 == {"T1.A.1", "T2.A.1", "T1.A.2"}
 K2 == {"T1.A.1", "T2.A.1"}
+(* the persistent part of NoDangling only: what a process opening the files finds.  With
+   RecordFirst = TRUE this is violated only through a Crash between Record and Move. *)
+NoDanglingDown == ~up => NoDangling
 (* vacuity witnesses: each must be VIOLATED (reachable) *)
 NeverOldAnswer  == rep # "old"
 NeverOrphanBlob == ~(\E n \in DOMAIN blobs : n \notin Range(prime) /\ ~up)
